@@ -874,7 +874,8 @@ func (env *Env) elabCall(x *ECall) SV {
 					return env.intSV(app("slen", v.t))
 				case v.ty != nil:
 					if mt, ok := v.ty.Underlying().(*types.Map); ok {
-						return env.intSV(sel(env.tr.getState(env.st, env.tr.mapHeap(mt, "len")), v.t))
+						// as in Go: the nil map has length 0
+						return env.intSV(ite(eq(v.t, "0"), "0", sel(env.tr.getState(env.st, env.tr.mapHeap(mt, "len")), v.t)))
 					}
 					if at, ok := v.ty.Underlying().(*types.Array); ok {
 						return env.intSV(num(at.Len()))
